@@ -45,7 +45,7 @@ use undermoon::common::batch::BatchStrategy;
 use undermoon::common::cluster::{ClusterName, MigrationMeta, Range, RangeList, RangeMap, SlotRange, SlotRangeTag};
 use undermoon::common::config::ClusterConfig;
 use undermoon::common::proto::{ClusterMapFlags, ProxyClusterMeta};
-use undermoon::common::utils::SLOT_NUM;
+use undermoon::common::utils::{generate_lock_slot, generate_slot, get_hash_tag, SLOT_NUM};
 use undermoon::protocol::verif_export::stateless::{parse_resp, ParseError};
 use undermoon::protocol::{
     new_simple_packet_codec, Array, BulkStr, Functor, Resp, RespCodec, RespIndex, RespPacket,
@@ -313,6 +313,42 @@ fn op_usize(b: &[u8]) -> String {
             Err(_) => "none".to_string(),
         },
     }
+}
+
+fn op_hashtag(k: &[u8]) -> String {
+    match catch_unwind(|| (get_hash_tag(k).to_vec(), generate_slot(k), generate_lock_slot(k))) {
+        Ok((t, sl, lk)) => format!("tag={} slot={} lock={}", hex(&t), sl, lk),
+        Err(_) => "PANIC".to_string(),
+    }
+}
+
+/// the arms of `ServerProxyConfig::set_value`, read from the source so that a new field is picked up
+fn config_fields() -> Vec<String> {
+    let t = std::fs::read_to_string("/repo/src/proxy/service.rs").unwrap_or_default();
+    let body = t.split("pub fn set_value").nth(1).unwrap_or("");
+    let body = body.split("\n    }\n").next().unwrap_or("");
+    let mut out = vec![];
+    for l in body.lines() {
+        let l = l.trim();
+        if l.starts_with('"') { if let Some(name) = l[1..].split('"').next() { out.push(name.to_string()); } }
+    }
+    out
+}
+
+/// `CONFIG SET field value` as the executor does it, then the rate limiter as the next requests consult it
+fn op_cfgset(field: &[u8], value: &[u8]) -> String {
+    let (f, v) = match (std::str::from_utf8(field), std::str::from_utf8(value)) { (Ok(f), Ok(v)) => (f, v), _ => return "nonutf8".to_string() };
+    let cfg = Arc::new(slowlog_config());
+    cfg.set_slowlog_sample_rate(1000);
+    let set = match catch_unwind(AssertUnwindSafe(|| cfg.set_value(f, v).is_ok())) { Ok(true) => "ok", Ok(false) => "err", Err(_) => "PANIC" };
+    let logger = SlowRequestLogger::new(cfg.clone());
+    let lim = catch_unwind(AssertUnwindSafe(|| { for _ in 0..3 { let _ = logger.limit_rate(cfg.get_slowlog_sample_rate()); } }));
+    format!("set={} limiter={}", set, if lim.is_ok() { "ok" } else { "PANIC" })
+}
+
+fn cfg_values() -> Vec<Vec<u8>> {
+    ["0", "1", "2", "1000", "1e3", "18446744073709551615", "18446744073709551616", "-9223372036854775808", "-9223372036854775809", "9223372036854775807",
+     "-1", "-0", "+0", "00", "", "x", " 0", "0 ", "99999999999999999999999999999999999999999999", "０"].iter().map(|x| x.as_bytes().to_vec()).collect()
 }
 
 fn resp_of(head: &[&str], args: &[Option<Vec<u8>>]) -> Resp<Vec<u8>> {
@@ -885,7 +921,32 @@ fn inproc_safe_for_packets(b: &[u8]) -> bool {
 // generators
 // ------------------------------------------------------------------------------------------
 
+/// routing keys with every order and multiplicity of `{` and `}`, at the first / last byte, with non-UTF-8 bytes
+/// between them, empty, NUL / 0xff bytes, very long
+fn key_shapes() -> Vec<Vec<u8>> {
+    let mut v: Vec<Vec<u8>> = ["}{", "a}b{c", "{}", "{", "}", "{{}}", "}}{{", "{a}{b}", "user}1{x}", "{user1000}.following", "foo{}{bar}",
+        "foo{{bar}}", "{}xxxxx", "x{", "x}", "}x{y}", "{}}{", "}{}", "{{{{{{{{", "}}}}}}}}", "{}{}{}{}", "a{b}c}d{e", "}{a}", "{a", "a}", ""]
+        .iter().map(|x| x.as_bytes().to_vec()).collect();
+    v.push(vec![b'}', 0xff, 0xfe, b'{']);
+    v.push(vec![b'{', 0xff, 0x00, b'}']);
+    v.push(vec![0x00]);
+    v.push(vec![0xff; 3]);
+    v.push(vec![b'{', 0xc3, b'}', 0xa9]);
+    let mut long = vec![b'}'; 1]; long.extend(vec![b'a'; 6000]); long.push(b'{'); v.push(long);
+    let mut long = vec![b'{'; 1]; long.extend(vec![b'}'; 3000]); v.push(long);
+    let mut long = vec![b'x'; 70000]; long[35000] = b'}'; long[69999] = b'{'; v.push(long);
+    v
+}
+
+/// a random word over the alphabet that matters to `get_hash_tag`
+fn brace_key(rng: &mut Rng) -> Vec<u8> {
+    if rng.chance(1, 3) { let sh = key_shapes(); return rng.pick(&sh).clone(); }
+    let n = rng.range(0, 9) as usize;
+    (0..n).map(|_| *rng.pick(&[b'{', b'}', b'{', b'}', b'a', b'b', 0x00, 0xff, 0xc3])).collect()
+}
+
 fn key(rng: &mut Rng) -> Vec<u8> {
+    if rng.chance(1, 3) { return brace_key(rng); }
     match rng.below(6) {
         0 => s("k"),
         1 => format!("key{}", rng.below(50)).into_bytes(),
@@ -1243,7 +1304,7 @@ fn gen_multikey(rng: &mut Rng) -> Gen {
     let name = *rng.pick(&["MSET", "MSETNX", "MGET", "DEL", "EXISTS", "mset"]);
     let n = rng.range(0, 7) as usize;
     let mut c = vec![s(name)];
-    for _ in 0..n { c.push(s("{t}k")); }
+    for _ in 0..n { c.push(if rng.chance(1, 3) { brace_key(rng) } else { s("{t}k") }); }
     let mut raw = vec![];
     if n >= 1 && rng.chance(1, 3) { raw.push((rng.range(1, n as i64) as usize, non_bulk(rng))); }
     g(elems_to_packet(&c, &raw), "multikey")
@@ -1528,11 +1589,36 @@ fn run_inproc_op(toks: &[&str], st: &mut Streams, op: &str) {
             }
             None => "bad-op".to_string(),
         },
+        ["hashtag", h] => match unhex(h) {
+            Some(k) => {
+                let r = op_hashtag(&k);
+                st.stats.count(if r == "PANIC" { "out.hashtag.PANIC" } else { "out.hashtag.ok" });
+                if r == "PANIC" {
+                    let c = st.cases;
+                    report_failure(&mut st.stats, c, "get_hash_tag / generate_slot panicked on a routing key (Command::new runs it for every request)", "", vec![op.to_string()]);
+                }
+                r
+            }
+            None => "bad-op".to_string(),
+        },
+        ["cfgset", f, v] => match (unhex(f), unhex(v)) {
+            (Some(f), Some(v)) => {
+                let r = op_cfgset(&f, &v);
+                st.stats.count(&format!("out.cfgset.{}", r.replace(' ', "_")));
+                if r.contains("PANIC") {
+                    let c = st.cases;
+                    report_failure(&mut st.stats, c, &format!("CONFIG SET {} {}: {} (every later request of every session consults the rate limiter)",
+                        String::from_utf8_lossy(&f), String::from_utf8_lossy(&v), r), "", vec![op.to_string()]);
+                }
+                r
+            }
+            _ => "bad-op".to_string(),
+        },
         ["utf8", h] => unhex(h).map(|b| if std::str::from_utf8(&b).is_ok() { "valid".to_string() } else { "invalid".to_string() }).unwrap_or_else(|| "bad-op".into()),
         _ => "bad-op".to_string(),
     };
     if out == "PANIC" && !op.starts_with("parse") && !op.starts_with("decode") && !op.starts_with("slowlog") && !op.starts_with("rangemap")
-        && !op.starts_with("setrepl") && !op.starts_with("setmeta") {
+        && !op.starts_with("setrepl") && !op.starts_with("setmeta") && !op.starts_with("hashtag") && !op.starts_with("cfgset") {
         let c = st.cases;
         report_failure(&mut st.stats, c, "in-process operation panicked", "", vec![op.to_string()]);
     }
@@ -1568,6 +1654,26 @@ fn inproc_stream(args: &Args, rng: &mut Rng) {
         st.finish("hostile-inproc", RULE_INPROC);
         return;
     }
+    // deterministic part: every key shape, every CONFIG SET field x boundary value
+    st.case();
+    let l = cfg_line(es, false);
+    st.op(&l, "ok");
+    for k in key_shapes() {
+        st.stats.count("gen.hashtag.shape");
+        let op = format!("hashtag {}", hex(&k));
+        let toks: Vec<&str> = op.split(' ').collect();
+        run_inproc_op(&toks, &mut st, &op);
+    }
+    let mut fields = config_fields();
+    fields.extend(["SLOWLOG_SAMPLE_RATE", "Slowlog_Log_Slower_Than", "nope", ""].iter().map(|x| x.to_string()));
+    for f in &fields {
+        for v in cfg_values() {
+            st.stats.count("gen.cfgset.sweep");
+            let op = format!("cfgset {} {}", hex(f.as_bytes()), hex(&v));
+            let toks: Vec<&str> = op.split(' ').collect();
+            run_inproc_op(&toks, &mut st, &op);
+        }
+    }
     let n = if args.thorough { 60_000 } else { 3_000 };
     let per_case = 500;
     for i in 0..n {
@@ -1576,7 +1682,10 @@ fn inproc_stream(args: &Args, rng: &mut Rng) {
             let l = cfg_line(es, false);
             st.op(&l, "ok");
         }
-        let (op, class): (String, &str) = match rng.below(23) {
+        let (op, class): (String, &str) = match rng.below(26) {
+            23 | 24 => (format!("hashtag {}", hex(&brace_key(rng))), "hashtag.random"),
+            25 => { let fs = config_fields(); let vs = cfg_values(); let mut v = rng.pick(&vs).clone(); if rng.chance(1, 4) { v = mutate(rng, &v); }
+                    (format!("cfgset {} {}", hex(rng.pick(&fs).as_bytes()), hex(&v)), "cfgset.random") }
             20 | 21 | 22 => {
                 // hostile control-plane arguments through the real parsers
                 let (c, class) = loop { let x = gen_ctl(rng, true, "127.0.0.1:7001", "127.0.0.1:5299"); if x.1.starts_with("ctl.setcluster") || x.1 == "ctl.setrepl" || x.1 == "ctl.switch" { break x; } };
@@ -1814,6 +1923,76 @@ fn run_child_setcluster(cx: &mut ChildCtx, st: &mut Streams, textual: bool, rs: 
     cx.restart();
 }
 
+/// send `data` on an open connection and wait for `want` complete replies: "alive n" | "closed" | "stalled"
+fn exchange(c: &mut TcpStream, data: &[u8], want: usize, ms: u64) -> String {
+    if c.write_all(data).is_err() { return "closed".to_string(); }
+    let deadline = Instant::now() + Duration::from_millis(ms);
+    let mut buf: Vec<u8> = vec![];
+    let mut tmp = [0u8; 8192];
+    loop {
+        let (rs, _) = count_replies(&buf);
+        if rs.len() >= want { return format!("alive {}", rs.len()); }
+        let now = Instant::now();
+        if now >= deadline { return "stalled".to_string(); }
+        let _ = c.set_read_timeout(Some((deadline - now).max(Duration::from_millis(1))));
+        match c.read(&mut tmp) {
+            Ok(0) => return "closed".to_string(),
+            Ok(n) => buf.extend_from_slice(&tmp[..n]),
+            Err(e) if e.kind() == std::io::ErrorKind::WouldBlock || e.kind() == std::io::ErrorKind::TimedOut => {}
+            Err(_) => return "closed".to_string(),
+        }
+    }
+}
+
+/// `CONFIG SET field value` on a fresh proxy, answered whatever it is, then ordinary commands on the same connection,
+/// on a connection established before and on a fresh one: every complete request must be answered everywhere
+fn run_child_cfgconn(cx: &mut ChildCtx, st: &mut Streams, field: &[u8], value: &[u8]) {
+    let op = format!("cfgconn {} {}", hex(field), hex(value));
+    cx.phase = "pre".into();
+    cx.restart();
+    let t0 = Instant::now();
+    let port = cx.proxy.port;
+    let connect = || TcpStream::connect(("127.0.0.1", port)).ok().map(|c| { let _ = c.set_nodelay(true); c });
+    let ordinary = { let mut b = cmd_bytes(&[s("PING")]); b.extend(cmd_bytes(&[s("GET"), s("k")])); b.extend(cmd_bytes(&[s("CONFIG"), s("GET"), s("slowlog_sample_rate")])); b };
+    let (mut set, mut same, mut est, mut fresh) = ("refused".to_string(), "refused".to_string(), "refused".to_string(), "refused".to_string());
+    if let (Some(mut e), Some(mut c)) = (connect(), connect()) {
+        let warm = exchange(&mut e, &cmd_bytes(&[s("PING")]), 1, 3000);
+        // the CONFIG SET, alone, answered whatever it is
+        cx.proxy.bytes_sent += 200;
+        let data = cmd_bytes(&[s("CONFIG"), s("SET"), field.to_vec(), value.to_vec()]);
+        set = if c.write_all(&data).is_err() { "closed".to_string() } else {
+            let _ = c.set_read_timeout(Some(Duration::from_secs(5)));
+            let mut buf = [0u8; 4096];
+            match c.read(&mut buf) {
+                Ok(0) => "closed".to_string(),
+                Ok(n) if buf[..n].starts_with(b"+OK") => "ok".to_string(),
+                Ok(_) => "err".to_string(),
+                Err(e) if e.kind() == std::io::ErrorKind::WouldBlock || e.kind() == std::io::ErrorKind::TimedOut => "stalled".to_string(),
+                Err(_) => "closed".to_string(),
+            }
+        };
+        same = exchange(&mut c, &ordinary, 3, 5000);
+        est = if warm == "alive 1" { exchange(&mut e, &cmd_bytes(&[s("PING")]), 1, 5000) } else { format!("warmup-{}", warm) };
+        fresh = match connect() { Some(mut f) => exchange(&mut f, &{ let mut b = cmd_bytes(&[s("PING")]); b.extend(cmd_bytes(&[s("GET"), s("k")])); b }, 2, 5000), None => "refused".to_string() };
+    }
+    cx.walls.push(t0.elapsed().as_millis());
+    let mut line = format!("set={} same={} est={} fresh={}", set, same, est, fresh);
+    if cx.proxy.dead_within(100).is_some() { line = format!("{} aborted", line); }
+    let good = (set == "ok" || set == "err") && same == "alive 3" && est == "alive 1" && fresh == "alive 2";
+    st.stats.count(&format!("out.cfgconn.{}", if good { format!("set-{}", set) } else { "BAD".to_string() }));
+    let case = st.cases;
+    let replay = vec![cfg_line(std::mem::size_of::<RespIndex>(), cx.ar), op.clone()];
+    let panics = cx.proxy.new_panics();
+    if !good {
+        report_failure(&mut st.stats, case, &format!("after CONFIG SET {} {} (answered {}): same connection {}, established connection {}, fresh connection {} {}",
+            String::from_utf8_lossy(field), String::from_utf8_lossy(value), set, same, est, fresh, panics.first().cloned().unwrap_or_default()), "", replay.clone());
+    } else {
+        for pl in &panics { report_failure(&mut st.stats, case, &format!("a session task panicked after CONFIG SET: {}", pl), "", replay.clone()); }
+        st.stats.nontrivial_case(&op);
+    }
+    st.op(&op, &line);
+}
+
 fn child_stream(args: &Args, rng: &mut Rng) {
     let mut st = Streams::new(args);
     let bin = match args.extra.get("proxy-bin") {
@@ -1850,6 +2029,10 @@ fn child_stream(args: &Args, rng: &mut Rng) {
                         _ => st.op(&l, "bad-op"),
                     }
                 }
+                ["cfgconn", f, v] => match (unhex(f), unhex(v)) {
+                    (Some(f), Some(v)) => run_child_cfgconn(&mut cx, &mut st, &f, &v),
+                    _ => st.op(&l, "bad-op"),
+                },
                 ["setcluster", form, rest @ ..] => match parse_ranges(rest) {
                     Some(rs) => run_child_setcluster(&mut cx, &mut st, *form == "t", &rs),
                     None => st.op(&l, "bad-op"),
@@ -1919,6 +2102,45 @@ fn child_stream(args: &Args, rng: &mut Rng) {
         st.stats.count(&format!("gen.{}", gen.class));
         st.stats.count(&format!("phase.{}", ph));
         run_child_conn(&mut cx, &mut st, &gen.bytes, gen.hint, gen.class);
+    }
+    // every routing-key shape in every position that carries a key, before and after metadata is set
+    for ph in ["pre", "post"] {
+        st.case();
+        let l = cfg_line(es, ar);
+        st.op(&l, "ok");
+        let ok = cx.enter_phase(ph);
+        st.op(&format!("phase {}", ph), if ok { "ok" } else { "phase-failed" });
+        if ph == "pre" { cx.restart(); }
+        for k in key_shapes() {
+            st.stats.count("gen.key-shape");
+            let mut b = vec![];
+            for c in [vec![s("GET"), k.clone()], vec![s("CLUSTER"), s("KEYSLOT"), k.clone()], vec![s("MGET"), s("a"), k.clone()],
+                      vec![s("EVAL"), s("return 1"), s("1"), k.clone()], vec![s("UMFORWARD"), s("2"), s("SET"), k.clone(), s("v")], vec![s("PING"), k.clone()]] {
+                b.extend(cmd_bytes(&c));
+            }
+            run_child_conn(&mut cx, &mut st, &b, None, "key-shape");
+        }
+    }
+    // CONFIG SET of every field x boundary value, followed by ordinary traffic on three connections
+    st.case();
+    let l = cfg_line(es, ar);
+    st.op(&l, "ok");
+    {
+        let fields = config_fields();
+        let writable: Vec<String> = fields.iter().filter(|f| op_cfgset(f.as_bytes(), b"1").starts_with("set=ok")).cloned().collect();
+        let mut plan: Vec<(Vec<u8>, Vec<u8>)> = vec![];
+        for f in &writable { for v in cfg_values() { plan.push((f.clone().into_bytes(), v)); } }
+        for f in &fields { if !writable.contains(f) { plan.push((f.clone().into_bytes(), s("0"))); if args.thorough { plan.push((f.clone().into_bytes(), s("18446744073709551615"))); } } }
+        plan.push((s("SLOWLOG_SAMPLE_RATE"), s("+0")));
+        plan.push((vec![0xff, b'x'], s("0")));
+        if !args.thorough {
+            // quick: all values for the writable fields, every other field once
+            plan.retain(|(f, v)| writable.iter().any(|w| w.as_bytes() == f.as_slice()) || v == b"0" || v == b"+0");
+        }
+        for (f, v) in plan {
+            st.stats.count("gen.cfgconn");
+            run_child_cfgconn(&mut cx, &mut st, &f, &v);
+        }
     }
     // hostile control-plane arguments, each followed by stateful probes on the same and on a second connection
     let probes: Vec<Vec<Vec<u8>>> = vec![
